@@ -785,7 +785,7 @@ struct VM : VMBase
         break;
       }
       note_thread_logged(tid);
-      std::string const path = scratch_dir + "/csv" + std::to_string(op.v[0]) + ".csv";
+      std::string const path = "csv" + std::to_string(op.v[0]) + ".csv"; // relative to the scratch directory (see run_plan_impl)
       std::string expected = std::string(CsvSchema::header) + "\n";
       {
         quill::CsvWriter<CsvSchema, FO> w(path, 'w');
@@ -1059,6 +1059,13 @@ void run_plan_impl(Plan const& plan, History& H, std::string const& scratch_dir)
   vm = new VM<FO>(plan, H);
   vm->scratch_dir = scratch_dir;
   g_vm = vm;
+  // names that quill puts into queue records (a CsvWriter's logger name is its file name, and remove_logger_blocking sends
+  // the logger name to the backend) must not depend on the worker's scratch path: such files are named relative to it
+  if (::chdir(scratch_dir.c_str()) != 0)
+  {
+    fprintf(stderr, "cannot chdir to %s\n", scratch_dir.c_str());
+    _exit(3);
+  }
 
   sim::Config cfg;
   cfg.sched_seed = static_cast<uint64_t>(plan.get("sched_seed", 1));
